@@ -161,12 +161,71 @@ theorem attrs_ok_after_tag_name (t : Tokenizer) (h : Inv t)
   rw [n.2.2.2.2.2]
   exact (s.attrs hk).1 a ha
 
+theorem text_cases (t : Tokenizer) :
+    (text t).1 = .panic ∨ (text t).2 = t ∨ (text t).2 = { t with dataS := t.rawE, dataE := t.rawE } := by
+  unfold text
+  (repeat' split) <;> simp
+
+theorem tagName_cases (t : Tokenizer) :
+    (tagName t).1 = .panic ∨ (tagName t).2 = t ∨ (tagName t).2 = { t with dataS := t.rawE, dataE := t.rawE } := by
+  unfold tagName
+  (repeat' split) <;> simp
+
+theorem tagAttr_cases (t : Tokenizer) :
+    (tagAttr t).1 = .panic ∨ (tagAttr t).2 = t ∨ (tagAttr t).2 = { t with nAttrRet := t.nAttrRet + 1 } := by
+  unfold tagAttr
+  split
+  · split
+    · simp only
+      cases t.slice? t.attrs[t.nAttrRet].ks t.attrs[t.nAttrRet].ke with
+      | none => simp
+      | some k =>
+        simp only
+        split
+        · simp
+        · cases t.slice? t.attrs[t.nAttrRet].vs t.attrs[t.nAttrRet].ve with
+          | none => simp
+          | some v => simp only; split <;> simp
+    · simp
+  · simp
+
+/-- Calling `text()` between two `next()` calls is invisible to `next()`: it only resets the data span,
+which `next()` overwrites first thing.  (So the theorems about `nexts` cover the interleaved use.) -/
+theorem next_after_text (t : Tokenizer) (h : (text t).1 ≠ .panic) : next (text t).2 = next t := by
+  rcases text_cases t with hp | he | he
+  · exact absurd hp h
+  · rw [he]
+  · rw [he]; rfl
+
+/-- The same for `tag_name()`. -/
+theorem next_after_tag_name (t : Tokenizer) (h : (tagName t).1 ≠ .panic) : next (tagName t).2 = next t := by
+  rcases tagName_cases t with hp | he | he
+  · exact absurd hp h
+  · rw [he]
+  · rw [he]; rfl
+
+/-- `tag_attr()` only advances `number_attribute_returned`. -/
+theorem tag_attr_frame (t : Tokenizer) (h : (tagAttr t).1 ≠ .panic) :
+    ∃ k, (tagAttr t).2 = { t with nAttrRet := k } := by
+  rcases tagAttr_cases t with hp | he | he
+  · exact absurd hp h
+  · exact ⟨t.nAttrRet, he⟩
+  · exact ⟨_, he⟩
+
 /-! Non-vacuity: the theorems have no hypothesis on the input; `Inv` is inhabited by every initial state
 (`new_inv`).  Concrete evaluations of the model on `<a>b`: the first token is a start tag with raw span
 `[0,3)`, the second the text `b`, the third the `ErrorToken`; the three raw spans and the (empty)
 remainder are the input. -/
 example : (nexts 1 (Tokenizer.new #[60, 97, 62, 98])).token = .startTag ∧
-    rawL (nexts 1 (Tokenizer.new #[60, 97, 62, 98])) = [60, 97, 62] := by
+    rawL (nexts 1 (Tokenizer.new #[60, 97, 62, 98])) = [60, 97, 62] ∧
+    (nexts 2 (Tokenizer.new #[60, 97, 62, 98])).token = .text ∧
+    rawL (nexts 2 (Tokenizer.new #[60, 97, 62, 98])) = [98] ∧
+    (nexts 3 (Tokenizer.new #[60, 97, 62, 98])).token = .error ∧
+    restL (nexts 3 (Tokenizer.new #[60, 97, 62, 98])) = [] := by
+  decide +kernel
+
+/-- `tag_name_some` is not vacuous: `<A b=c>` is a start tag named `a` with one attribute. -/
+example : (tagName (next (Tokenizer.new #[60, 65, 32, 98, 61, 99, 62]))).1 matches .ok (some [97], true) := by
   decide +kernel
 
 end Rio.C16
